@@ -170,7 +170,11 @@ func c03Transcript(pn string, b []byte, tmp string) string {
 func runC03(t *testing.T, sc *Scenario) Result {
 	res := okResult()
 	pn := sc.ParamStr("proto", "")
-	tags := strings.Split(sc.ParamStr("tags", ""), ",")
+	// every actor is named after its session tag (a minimised scenario may have lost actors)
+	var tags []string
+	for _, a := range sc.Actors {
+		tags = append(tags, a.Name)
+	}
 	obs := RunScenario(t, sc, nil)
 	res.Digest = traceDigest(obs, c03Skip)
 	res.Steps, res.SimMs = obs.Steps, obs.SimMs
